@@ -109,6 +109,10 @@ type (
 	RecA   struct{ B *RecB }
 	RecB   struct{ A []RecA }
 	RecMap struct{ M map[string]RecMap }
+	// cycles made of pointers only
+	PSelf *PSelf
+	PMutA *PMutB
+	PMutB *PMutA
 
 	// named unsupported non-struct types
 	NFunc    func()
@@ -157,6 +161,7 @@ var Pool = []PoolEntry{
 	{"TaggedUnexp", reflect.TypeFor[TaggedUnexp](), "struct"}, {"TaggedUnexpOmit", reflect.TypeFor[TaggedUnexpOmit](), "struct"},
 	{"DashInner", reflect.TypeFor[DashInner](), "struct"}, {"DashMid", reflect.TypeFor[DashMid](), "struct"},
 	{"Rec", reflect.TypeFor[Rec](), "recursive"}, {"RecA", reflect.TypeFor[RecA](), "recursive"}, {"RecB", reflect.TypeFor[RecB](), "recursive"}, {"RecMap", reflect.TypeFor[RecMap](), "recursive"},
+	{"PSelf", reflect.TypeFor[PSelf](), "recursive"}, {"PMutA", reflect.TypeFor[PMutA](), "recursive"},
 	{"NFunc", reflect.TypeFor[NFunc](), "unsupported"}, {"NChan", reflect.TypeFor[NChan](), "unsupported"}, {"NIntMap", reflect.TypeFor[NIntMap](), "unsupported"},
 	{"NFuncs", reflect.TypeFor[NFuncs](), "unsupported"}, {"NComplex", reflect.TypeFor[NComplex](), "unsupported"},
 	{"HasChan", reflect.TypeFor[HasChan](), "unsupported"}, {"HasFunc", reflect.TypeFor[HasFunc](), "unsupported"}, {"HasComplex", reflect.TypeFor[HasComplex](), "unsupported"},
@@ -860,13 +865,29 @@ func visibleJSONFields(t reflect.Type) []reflect.StructField {
 // Supported: t contains none of the kinds For documents as unsupported (maps with a
 // non-string key, functions, channels, complex numbers, unsafe pointers) at any depth.
 // overridden types (TypeSchemas keys) count as supported whatever they contain.
+// Deref follows pointers. ptrCycle: the pointers never end (type P *P, or A *B with B *A).
+func Deref(t reflect.Type) (elem reflect.Type, ptrCycle bool) {
+	seen := map[reflect.Type]bool{}
+	for t.Kind() == reflect.Pointer {
+		if t.Name() != "" {
+			if seen[t] {
+				return t, true
+			}
+			seen[t] = true
+		}
+		t = t.Elem()
+	}
+	return t, false
+}
+
 func Supported(t reflect.Type, overridden map[reflect.Type]bool) bool {
 	return supported(t, overridden, map[reflect.Type]bool{})
 }
 
 func supported(t reflect.Type, ov map[reflect.Type]bool, seen map[reflect.Type]bool) bool {
-	for t.Kind() == reflect.Pointer {
-		t = t.Elem()
+	t, ptrCycle := Deref(t)
+	if ptrCycle {
+		return true // nothing unsupported in it; Cyclic reports it
 	}
 	if stdMarshalerTypes[t] || ov[t] {
 		return true
@@ -902,8 +923,9 @@ func Cyclic(t reflect.Type, overridden map[reflect.Type]bool) bool {
 }
 
 func cyclic(t reflect.Type, ov map[reflect.Type]bool, path map[reflect.Type]bool) bool {
-	for t.Kind() == reflect.Pointer {
-		t = t.Elem()
+	t, ptrCycle := Deref(t)
+	if ptrCycle {
+		return true
 	}
 	if stdMarshalerTypes[t] || ov[t] {
 		return false
@@ -1079,6 +1101,14 @@ func AnyNameConflict(t reflect.Type) bool {
 
 func anyNameConflict(t reflect.Type, seen map[reflect.Type]bool) bool {
 	for t.Kind() == reflect.Pointer || t.Kind() == reflect.Slice || t.Kind() == reflect.Array || t.Kind() == reflect.Map {
+		if t.Name() != "" {
+			// named containers and pointers can close a cycle without passing through a struct
+			// (type P *P, type L []L)
+			if seen[t] {
+				return false
+			}
+			seen[t] = true
+		}
 		t = t.Elem()
 	}
 	if t.Kind() != reflect.Struct || seen[t] || stdMarshalerTypes[t] {
@@ -1134,8 +1164,9 @@ func StripNameConflicts(td *TD) int {
 // an unsupported kind itself, or a slice/array/map whose element type is left out. A struct
 // is never left out as a whole (only its offending fields are).
 func DroppedWhenIgnored(t reflect.Type, ov map[reflect.Type]bool) bool {
-	for t.Kind() == reflect.Pointer {
-		t = t.Elem()
+	t, ptrCycle := Deref(t)
+	if ptrCycle {
+		return false
 	}
 	if stdMarshalerTypes[t] || ov[t] {
 		return false
